@@ -71,20 +71,20 @@ func Verif_C12_damping_scenarios() {
 	case c12SentFSMError:
 		// UPDATE is unexpected in OpenSent/OpenConfirm; OPEN is unexpected in Established
 		if state == stEstablished {
-			c.send(openMessageType, e.openBody())
+			c.send(verifMsgOpen, e.openBody())
 		} else {
-			c.send(updateMessageType, []byte{0, 0, 0, 0})
+			c.send(verifMsgUpdate, []byte{0, 0, 0, 0})
 		}
 		code = NOTIF_CODE_FSM_ERR
 	case c12BadHeader:
-		bad := mkFrame(keepAliveMessageType, nil)
+		bad := mkFrame(verifMsgKeepalive, nil)
 		bad[3] = 0
 		c.chunks = append(c.chunks, bad)
 		c.deliver(len(c.chunks), false)
 		code = NOTIF_CODE_MESSAGE_HEADER_ERR
 	case c12RecvNotif:
 		code = verifU8("ncode")
-		c.send(notificationMessageType, []byte{code, verifU8("nsub")})
+		c.send(verifMsgNotification, []byte{code, verifU8("nsub")})
 	case c12TCPClose:
 		c.remoteClose(1 + verifChoose("fin-or-rst", 2))
 		protocol = false
@@ -143,10 +143,10 @@ func Verif_C12_error_races_other_connection() {
 	co := e.bring(out, stOpenConfirm)
 	ci := e.bring(in, stOpenSent)
 	verifDelayBound(1)
-	ci.send(updateMessageType, []byte{0, 0, 0, 0}) // unexpected in OpenSent -> NOTIFICATION(5,1) sent
-	co.send(keepAliveMessageType, nil)
+	ci.send(verifMsgUpdate, []byte{0, 0, 0, 0}) // unexpected in OpenSent -> NOTIFICATION(5,1) sent
+	co.send(verifMsgKeepalive, nil)
 	verifQuiesce()
-	sentProtocolError := len(ci.writes) >= 2 && verifAt(ci.writes[len(ci.writes)-1], 18) == notificationMessageType && verifAt(ci.writes[len(ci.writes)-1], 19) == NOTIF_CODE_FSM_ERR
+	sentProtocolError := len(ci.writes) >= 2 && verifAt(ci.writes[len(ci.writes)-1], 18) == verifMsgNotification && verifAt(ci.writes[len(ci.writes)-1], 19) == NOTIF_CODE_FSM_ERR
 	if sentProtocolError {
 		verifAssertKnown("protocol-error-sent-damps-the-peer", e.p.inHoldDown, "C12-error-lost-when-fsm-stopped-while-offering-it", !e.p.inHoldDown && e.pl.nEstab == 1)
 		verifCover("error-raced")
